@@ -147,7 +147,9 @@ func hostiles() []hostile {
 	big := strings.Repeat("x", 65535)
 	var hs []hostile
 	// (window 0, queue 0: the library's defaults, 10 and 100, for every other hostile)
-	add := func(name string, f func(sc *scen, c *hx.Ctx)) { hs = append(hs, hostile{name, 10 * (len(hs) % 2), 1000 * (len(hs) % 2), f}) }
+	add := func(name string, f func(sc *scen, c *hx.Ctx)) {
+		hs = append(hs, hostile{name, 10 * (len(hs) % 2), 1000 * (len(hs) % 2), f})
+	}
 	add("garbage", func(sc *scen, c *hx.Ctx) {
 		for i := 0; i < 20; i++ {
 			b := make([]byte, 1+c.Rng.Intn(64))
@@ -532,7 +534,10 @@ func faultAtCallSite(o *out, c *hx.Ctx, kind string) {
 	if wantWill == 1 {
 		waitFor(long, func() bool { return obs.countTopic("will/victim") >= 1 })
 	} else {
-		waitFor(long, func() bool { n := b.nth("victim", 1); return n != nil && closedNow(n) || kind == "authenticate" && !v.isOpen() })
+		waitFor(long, func() bool {
+			n := b.nth("victim", 1)
+			return n != nil && closedNow(n) || kind == "authenticate" && !v.isOpen()
+		})
 	}
 	time.Sleep(absence)
 	wills := obs.countTopic("will/victim")
@@ -622,7 +627,10 @@ func shutdownBetweenAuthAndSetup(o *out, c *hx.Ctx) {
 	sc.direct("shutdown_closes_all", at && ok && early.isClosed(long), fmt.Sprintf("Close with one live client and one between Authenticate and Setup (reached=%v) returned true in time=%v; the live client was closed=%v", at, ok, !early.isOpen()))
 	rel()
 	gone := late.isClosed(long)
-	accepted := late.count(func(g packet.Generic) bool { a, k := g.(*packet.Connack); return k && a.ReturnCode == packet.ConnectionAccepted }) > 0
+	accepted := late.count(func(g packet.Generic) bool {
+		a, k := g.(*packet.Connack)
+		return k && a.ReturnCode == packet.ConnectionAccepted
+	}) > 0
 	sc.direct("late_connection_released", gone && !accepted, fmt.Sprintf("connection that reaches Setup after Close: accepted=%v, closed by the broker=%v", accepted, gone))
 }
 
